@@ -30,8 +30,10 @@ RULE = ("cell (static): (Dw, Dy, N, observation class) -> recorded history of th
         "observations: filtered mean/covariance at every t and accumulated evidence. non-trivial: "
         "N>1 or T>1; distinct = cell tuple")
 
-STATIC_Q = [(1, 1, 1), (2, 1, 3), (1, 2, 2), (3, 2, 4), (2, 2, 3), (2, 3, 2)]
-STATIC_T = STATIC_Q + [(4, 2, 6), (3, 3, 5), (1, 3, 6), (4, 1, 5), (3, 1, 2), (4, 3, 3)]
+# (Dw, Dy, N); the last three of the quick list leave directions of w uninformed (N*Dy < Dw)
+STATIC_Q = [(1, 1, 1), (2, 1, 3), (1, 2, 2), (3, 2, 4), (2, 2, 3), (2, 3, 2), (3, 1, 1), (4, 1, 2),
+            (4, 2, 1)]
+STATIC_T = STATIC_Q + [(4, 2, 6), (3, 3, 5), (1, 3, 6), (4, 1, 5), (3, 1, 2), (4, 3, 3), (5, 2, 2)]
 SSM_Q = [(1, 1, 3), (2, 1, 5), (2, 2, 4), (3, 2, 5)]
 SSM_T = SSM_Q + [(1, 2, 8), (2, 1, 12), (3, 2, 12), (3, 3, 8), (2, 2, 10)]
 
@@ -48,6 +50,41 @@ def cells(tier, seed):
             out.append({"part": "ssm", "Dz": Dz, "Dy": Dy, "T": T, "ok": ok, "reps": reps,
                         "group": ["k", Dz, Dy], "cost": T})
     return out
+
+
+def posterior_mp(mu0, S0, Ms, bs, Ss, ys):
+    """stacked linear-Gaussian model in 40-digit arithmetic (mpmath): posterior mean, covariance,
+    log marginal likelihood, and the float covariance of the stacked observations. Used so that
+    vague priors / uninformed directions (posterior condition numbers up to 1e6) can be judged
+    without the oracle's own rounding getting near the tolerance."""
+    import mpmath as mp
+
+    mp.mp.dps = 40
+    M = mp.matrix(np.concatenate(Ms, axis=0).tolist())
+    b = mp.matrix(np.concatenate(bs).tolist())
+    y = mp.matrix(np.concatenate(ys).tolist())
+    n = M.rows
+    Sn = mp.zeros(n, n)
+    o = 0
+    for S in Ss:
+        k = S.shape[0]
+        for i in range(k):
+            for j in range(k):
+                Sn[o + i, o + j] = mp.mpf(float(S[i, j]))
+        o += k
+    S0m = mp.matrix(S0.tolist())
+    m0 = mp.matrix(mu0.tolist())
+    Sy = Sn + M * S0m * M.T
+    my = M * m0 + b
+    Syi = Sy ** -1
+    K = S0m * M.T * Syi
+    mu = m0 + K * (y - my)
+    S = S0m - K * M * S0m
+    r = y - my
+    lml = -(r.T * Syi * r)[0] / 2 - n * mp.log(2 * mp.pi) / 2 - mp.log(mp.det(Sy)) / 2
+    tonp = lambda A: np.array([[float(A[i, j]) for j in range(A.cols)] for i in range(A.rows)])
+    Sf = tonp(S)
+    return tonp(mu)[:, 0], 0.5 * (Sf + Sf.T), float(lml), tonp(Sy)
 
 
 def posterior_np(mu0, S0, Ms, bs, Ss, ys):
@@ -85,14 +122,18 @@ def run_static(cell, rec, seed):
         rng = gen.rng_for(seed, "C11s", Dw, Dy, N, ok, rep)
         info = {"part": "static", "Dw": Dw, "Dy": Dy, "N": N, "obs_class": ok, "rep": rep}
         for attempt in range(20):
-            prior, tp = build.mk_pdf(rng, 1, Dw, kappa=float(rng.choice(gen.KAPPAS[:3])))
+            # a vague prior (variance 1e3 .. 1e5) when the data leave directions of w uninformed:
+            # the posterior precision then has eigenvalues of 1e-3 .. 1e-5 in absolute terms
+            vague = N * Dy < Dw and rep % 2 == 1
+            prior, tp = build.mk_pdf(rng, 1, Dw, kappa=float(rng.choice(gen.KAPPAS[:3])),
+                                     scale=(10.0 ** rng.uniform(3, 5)) if vague else None)
             obs = [mk_obs(ok, rng, Dy, Dw, float(rng.choice(gen.KAPPAS[:3]))) for _ in range(N)]
             ys = [gen.vec(rng, Dy, scale=1.5) for _ in range(N)]
             Ms = [t.M[0] for _, t, _ in obs]
             bs = [t.b[0] for _, t, _ in obs]
             Ss = [t.Sigma[0] for _, t, _ in obs]
-            mu_ref, S_ref, lml_ref, Sy = posterior_np(tp.mu[0], tp.Sigma[0], Ms, bs, Ss, ys)
-            if gen.in_domain(Sy, S_ref):
+            mu_ref, S_ref, lml_ref, Sy = posterior_mp(tp.mu[0], tp.Sigma[0], Ms, bs, Ss, ys)
+            if gen.in_domain(Sy, S_ref, kmax=1e6):
                 break
             rec.count("out_of_domain")
         else:
